@@ -484,6 +484,129 @@ end DpapiNg.Gen
     return out
 
 
+# ---------------------------------------------------------------------------------------------
+# Byte layouts: a `pack` method of the form `return b"".join([...])` is translated item by item into a
+# `List Layout.Item`; `Proofs/Layout.lean` proves the hand-written pack model is the interpretation of that list.
+def L(name, props, file, cls, model):
+    return dict(name=name, props=props, file=file, func=cls + ".pack", kind="layout", loc=("layout",), model=model,
+                imports=["Proofs.Layout"], typ="List Layout.Item")
+
+
+KERNELS += [
+    L("LayoutEnvelope", ["C11"], "_gkdi.py", "GroupKeyEnvelope", "Gkdi.envelopeLayout"),
+    L("LayoutKeyId", ["C11", "C06"], "_blob.py", "KeyIdentifier", "Gkdi.keyIdLayout"),
+    L("LayoutPduHeader", ["C12", "C13"], "_rpc/_pdu.py", "PDUHeader", "Rpc.headerLayout"),
+    L("LayoutSecTrailer", ["C12", "C13"], "_rpc/_pdu.py", "SecTrailer", "Rpc.secTrailerLayout"),
+    L("LayoutRequest", ["C12", "C13"], "_rpc/_request.py", "Request", "Rpc.requestLayout"),
+    L("LayoutResponse", ["C12", "C16"], "_rpc/_request.py", "Response", "Rpc.responseLayout"),
+    L("LayoutFault", ["C12"], "_rpc/_pdu.py", "Fault", "Rpc.faultLayout"),
+]
+
+
+def layout_items(fn):
+    """[Lean item, ...] for `return b"".join([...])`; locals of the form `(self.x + "\0").encode("utf-16-le")` are named utf16z:x"""
+    body = [st for st in fn.body if not (isinstance(st, ast.Expr) and isinstance(st.value, ast.Constant))]
+    locs = {}
+    for st in body[:-1]:
+        ok = False
+        if isinstance(st, ast.Assign) and len(st.targets) == 1 and isinstance(st.targets[0], ast.Name):
+            v = st.value
+            if (isinstance(v, ast.Call) and isinstance(v.func, ast.Attribute) and v.func.attr == "encode" and len(v.args) == 1
+                    and isinstance(v.args[0], ast.Constant) and v.args[0].value == "utf-16-le" and isinstance(v.func.value, ast.BinOp)
+                    and isinstance(v.func.value.op, ast.Add) and ast.unparse(v.func.value.left).startswith("self.")
+                    and isinstance(v.func.value.right, ast.Constant) and v.func.value.right.value == "\0"):
+                locs[st.targets[0].id] = "utf16z:" + ast.unparse(v.func.value.left)[5:]
+                ok = True
+        if not ok:
+            raise Unsupported(f"statement before the join: {ast.unparse(st)[:60]}")
+    ret = body[-1]
+    if not (isinstance(ret, ast.Return) and isinstance(ret.value, ast.Call) and ast.unparse(ret.value.func) == "b''.join"
+            and len(ret.value.args) == 1 and isinstance(ret.value.args[0], ast.List)):
+        raise Unsupported("pack is not `return b''.join([...])`")
+
+    def ref(node):
+        t = ast.unparse(node)
+        if isinstance(node, ast.Name) and node.id in locs:
+            return locs[node.id]
+        if t.startswith("self.") and t.count(".") == 1:
+            return t[5:]
+        if t.startswith("self.") and t.endswith(".bytes_le") and t.count(".") == 2:
+            return "uuid_le:" + t[5:-9]
+        if t.startswith("self.") and t.endswith(".pack()") and t.count(".") == 2:
+            return "pack:" + t[5:-7]
+        raise Unsupported(f"layout reference {t[:60]}")
+
+    def little(call):
+        kws = {k.arg: k.value for k in call.keywords}
+        if len(call.args) == 1 and set(kws) == {"byteorder"} and isinstance(kws["byteorder"], ast.Constant) and kws["byteorder"].value == "little" \
+                and isinstance(call.args[0], ast.Constant) and isinstance(call.args[0].value, int):
+            return call.args[0].value
+        raise Unsupported(f"to_bytes form {ast.unparse(call)[:60]}")
+    items = []
+    for e in ret.value.args[0].elts:
+        if isinstance(e, ast.Constant) and isinstance(e.value, bytes):
+            items.append(".const [" + ", ".join(str(b) for b in e.value) + "]")
+        elif isinstance(e, ast.Call) and isinstance(e.func, ast.Attribute) and e.func.attr == "to_bytes":
+            w = little(e)
+            tgt = e.func.value
+            if isinstance(tgt, ast.Call) and ast.unparse(tgt.func) == "len" and len(tgt.args) == 1:
+                items.append(f'.lenOf "{ref(tgt.args[0])}" {w}')
+            else:
+                r = ref(tgt)
+                if ":" in r:
+                    raise Unsupported(f"integer field {r}")
+                items.append(f'.int "{r}" {w}')
+        elif isinstance(e, ast.IfExp) and isinstance(e.orelse, ast.Constant) and e.orelse.value == b"" and ast.unparse(e.test).startswith("self."):
+            r = ref(e.body)
+            if r.split(":")[-1] != ast.unparse(e.test)[5:] or ":" not in r:
+                raise Unsupported(f"conditional element {ast.unparse(e)[:60]}")
+            items.append(f'.bytes "opt{"" if r.startswith("pack") else "_"}{r}"')
+        else:
+            items.append(f'.bytes "{ref(e)}"')
+    return items
+
+
+def generate_layout(k: dict) -> dict:
+    path = os.path.join(SRC, k["file"])
+    out = {"name": k["name"], "file": k["file"], "func": k["func"]}
+    try:
+        tree = ast.parse(open(path).read())
+        fn = find_function(tree, k["func"])
+        out["line"] = fn.lineno
+        items = layout_items(fn)
+        out["python"] = f"{k['func']}: b''.join of {len(items)} items"
+    except (Unsupported, OSError, SyntaxError, ValueError, LookupError) as e:
+        out["status"] = "unsupported"
+        out["reason"] = f"{type(e).__name__}: {e}"
+        p = os.path.join(GEN_DIR, k["name"] + ".lean")
+        if os.path.exists(p):
+            os.remove(p)
+        return out
+    name = k["name"]
+    body = "[" + ",\n   ".join(items) + "]"
+    lean = f"""-- GENERATED by harness/extract.py from src/dpapi_ng/{k['file']}:{out['line']} ({k['func']}) — do not edit.
+import DpapiNg.Proofs.Layout
+namespace DpapiNg.Gen
+open DpapiNg DpapiNg.Layout
+
+def {name} : List Item :=
+  {body}
+
+theorem {name}_eq : {name} = {k['model']} := by
+  decide
+
+end DpapiNg.Gen
+"""
+    os.makedirs(GEN_DIR, exist_ok=True)
+    p = os.path.join(GEN_DIR, name + ".lean")
+    old = open(p).read() if os.path.exists(p) else None
+    if old != lean:
+        with open(p, "w") as f:
+            f.write(lean)
+    out.update(status="generated", lean_path=p, lean_def=body.replace("\n   ", " "), module=f"DpapiNg.Gen.{name}", sha=hashlib.sha256(lean.encode()).hexdigest()[:16])
+    return out
+
+
 def register(k: dict) -> None:
     KERNELS.append(k)
 
@@ -496,6 +619,8 @@ def generate(k: dict) -> dict:
     """Returns {name, status: generated|unsupported, reason?, lean_path, source_line, python}."""
     if k.get("kind") == "const":
         return generate_const(k)
+    if k.get("kind") == "layout":
+        return generate_layout(k)
     path = os.path.join(SRC, k["file"])
     out = {"name": k["name"], "file": k["file"], "func": k["func"]}
     try:
